@@ -16,6 +16,7 @@ func runC14(c *Ctx) {
 	R.Explanation = "Value decoding (what pgx codecs return) and independence from how the client splits the stream are runtime clauses that static analysis does not decide; the second one is in fact violated on this tree (open finding R3: a row that spans two CopyData messages is not reassembled). Decided structural clauses: (R1) the field count of a row is compared by equality with the number of declared columns before the row is allocated or decoded, and every index into the scanners and the row is proved in range; " +
 		"(R2) the end-of-data trailer (field count 0xFFFF) is recognised by equality before the count is used, yields no row and surfaces the stream's end; the NULL field marker (length 0xFFFFFFFF) is recognised by equality and leaves the value nil, every other length is read as a length and failures are returned as errors; (R3) [open finding] a short read inside a row must be able to fetch the next CopyData message; " +
 		"(R4) scanner i is built from declared column i in order, in binary format, by the connection's type map; (R5) value i is produced by scanner i from exactly the bytes read for field i, the row is returned only when all announced fields were decoded, and a row is never returned together with an error."
+	R.Explanation += " (R4) also: every scanner NewScanner returns decodes through Codec.DecodeValue."
 	R.Trusted = []string{"go/types + go/ssa", "pgx codecs return errors rather than panic on malformed bytes"}
 
 	read := c.mustMethod("C14.R1", "wire", "BinaryCopyReader", "Read")
@@ -256,6 +257,38 @@ func runC14(c *Ctx) {
 	}
 	if nsf := c.P.Func("wire", "NewScanner"); nsf != nil {
 		// the scanner closure decodes with the column's OID and the given format
+		// every scanner handed out decodes through the column's codec (which knows NULL, short and malformed values)
+		for _, r := range returns(nsf) {
+			if len(r.Results) == 0 {
+				continue
+			}
+			rv := forwardLoad(r.Results[0])
+			for {
+				if ct, isCT := rv.(*ssa.ChangeType); isCT {
+					rv = ct.X
+					continue
+				}
+				break
+			}
+			var fnc *ssa.Function
+			switch x := rv.(type) {
+			case *ssa.MakeClosure:
+				fnc, _ = x.Fn.(*ssa.Function)
+			case *ssa.Function:
+				fnc = x
+			default:
+				continue // the nil scanner of the error returns
+			}
+			viaCodec := false
+			if fnc != nil {
+				for _, ci := range core.Calls(fnc) {
+					if cc := ci.Common(); cc.IsInvoke() && cc.Method.Name() == "DecodeValue" {
+						viaCodec = true
+					}
+				}
+			}
+			R.Check(viaCodec, "C14.R4", "NewScanner:scanner-uses-codec:"+retDescr(r), c.at(r), "every scanner decodes its field through the declared column type's codec in the requested format", "the returned closure calls Codec.DecodeValue", "a scanner returned by NewScanner decodes by hand instead of through the column's codec: NULL (nil), short or malformed field values are not handled as the codec does (wrong values or a panic)")
+		}
 		for _, a := range nsf.AnonFuncs {
 			for _, ci := range core.Calls(a) {
 				cc := ci.Common()
